@@ -51,14 +51,18 @@ type ShrexStats struct {
 }
 
 // Stats evaluates the observations of the fake host after the call returned.
-func (n *ShrexNet) Stats() ShrexStats {
+func (n *ShrexNet) Stats() ShrexStats { return n.StatsWithSpare(0) }
+
+// StatsWithSpare is Stats where an honest answer only counts if at least spare was left until the
+// attempt's deadline when it was consumed.
+func (n *ShrexNet) StatsWithSpare(spare time.Duration) ShrexStats {
 	n.mu.Lock()
 	defer n.mu.Unlock()
 	st := ShrexStats{AllServed: len(n.order) > 0}
 	lab := map[string]bool{}
 	started, notFound := 0, 0
 	for _, it := range n.order {
-		served := it.HonestServed()
+		served := it.HonestServedWithSpare(spare)
 		st.AllServed = st.AllServed && served
 		badBefore := false
 		for _, s := range it.Steps {
@@ -118,13 +122,17 @@ type BSStats struct {
 }
 
 // Stats evaluates the observations of the fake exchange after the call returned.
-func (x *BSExchange) Stats() BSStats {
+func (x *BSExchange) Stats() BSStats { return x.StatsWithSpare(0) }
+
+// StatsWithSpare is Stats where an honest block only counts if at least spare was left until the
+// request's deadline when it was offered.
+func (x *BSExchange) StatsWithSpare(spare time.Duration) BSStats {
 	x.mu.Lock()
 	defer x.mu.Unlock()
 	st := BSStats{AllOffered: len(x.order) > 0, Panics: append([]string(nil), x.Panics...)}
 	lab := map[string]bool{}
 	for _, it := range x.order {
-		st.AllOffered = st.AllOffered && it.HonestOffered()
+		st.AllOffered = st.AllOffered && it.HonestOfferedWithSpare(spare)
 		badBefore := false
 		for _, s := range it.Steps {
 			if !s.Reached {
